@@ -40,17 +40,19 @@ func propC18(c *Ctx) {
 			if fa.Field.Name() != "ch" || !typeNamed(fa.Base.Type(), "tmutex.Mutex") || fa.Write {
 				continue
 			}
-			n := FuncName(fn)
-			c.Check(n == tm+"Lock" || n == tm+"Unlock", m2, "Mutex.ch/read-in:"+n, c.pos(fa.Instr), "token channel used by Lock/Unlock", "token channel read outside Lock/Unlock: tokens can be stolen or added")
+			for _, n := range c.Owners(fn) {
+				c.Check(n == tm+"Lock" || n == tm+"Unlock", m2, "Mutex.ch/read-in:"+n, c.pos(fa.Instr), "token channel used by Lock/Unlock", "token channel read outside Lock/Unlock: tokens can be stolen or added")
+			}
 		}
 	}
 
 	m3 := c.Rule("M3", "K7 exact-guard site tables", "protocol tables of TryLock, Unlock, Lock", 12)
 	if fn := c.Fn(m3, tm+"TryLock"); fn != nil {
-		free := "(0 < " + av("LoadInt32", "") + ")"
+		held := "(" + av("LoadInt32", "") + " < 1)"
+		free := "!" + held
 		c.CheckSites(m3, fn, []SiteSpec{
 			{Kind: "call", Target: "sync/atomic.LoadInt32", Args: []string{"&$0.v"}, Guards: []string{}, Exact: true, N: 1, Why: "one look at the state"},
-			{Kind: "return", Args: []string{"false"}, Guards: []string{"!" + free}, Exact: true, N: 1, Why: "held (0) or held-with-waiters (<0): fail without touching the state"},
+			{Kind: "return", Args: []string{"false"}, Guards: []string{held}, Exact: true, N: 1, Why: "held (0) or held-with-waiters (<0): fail without touching the state"},
 			{Kind: "call", Target: "sync/atomic.CompareAndSwapInt32", Args: []string{"&$0.v", "1", "0"}, Guards: []string{free}, Exact: true, N: 1, Why: "acquire only by 1 -> 0"},
 			{Kind: "return", Args: []string{av("CompareAndSwapInt32", ", 1, 0")}, Guards: []string{free}, Exact: true, N: 1, Why: "success is exactly the CAS result"},
 		})
@@ -78,14 +80,14 @@ func propC18(c *Ctx) {
 		// The receive is reached only after the re-check failed in the same iteration:
 		// every path from the loop head to the recv passes the Load (and a failed test).
 		var recv, load ssa.Instruction
-		Instrs(fn, func(in ssa.Instruction) {
-			if u, ok := in.(*ssa.UnOp); ok && u.Op.String() == "<-" {
-				recv = in
+		for _, st := range Sites(fn) { // Sites: the receive may sit in a helper extracted later (inline.go); its position is then the call
+			if st.Kind == "recv" {
+				recv = st.Instr
 			}
-			if ci, ok := in.(ssa.CallInstruction); ok && CalleeName(ci) == "sync/atomic.LoadInt32" {
-				load = in
+			if st.Kind == "call" && st.Target == "sync/atomic.LoadInt32" {
+				load = st.Instr
 			}
-		})
+		}
 		if recv != nil && load != nil {
 			c.Check(InstrDominates(load, recv), m3, FuncName(fn)+"/recheck-before-sleep", c.pos(recv), "the state re-check dominates the sleep", "Lock can sleep on the channel without re-checking the state first: a token sent before the sleep is the only wake-up")
 			// after waking, the loop re-checks: recv's block must lead back to load without returning
